@@ -91,6 +91,7 @@ class Unit:
         self.tmpl, self.tline = tmpl, tline
         self.rewrites = []
         self.loops = {}
+        self.loopstarts = {}
         self.ats = []
         self.params_drop, self.params_add = [], []
         self.header_lines = []
@@ -217,6 +218,7 @@ class Generator:
             edits.append((s, e, rep, tag))
 
         rbstr_on = any(rw[0] == 'RBSTR' for rw in u.rewrites)
+        rct_taken = set()
 
         def text_of(s, e):
             """source text of [s,e); when RBSTR is active, byte-string literals inside it are already in array-literal form
@@ -270,7 +272,10 @@ class Generator:
                     if inside(b['span'], span) and normtok(src[b['span'][0]:b['span'][1]].decode()) == want:
                         lhs = text_of(b['lhs'][0], b['lhs'][1])
                         rhs = text_of(b['rhs'][0], b['rhs'][1])
-                        add_edit(b['span'][0], b['span'][1], f'{func}({lhs}, {rhs})', 'R7')
+                        if len(rw) > 3 and rw[3] == 'byref':
+                            add_edit(b['span'][0], b['span'][1], f'{func}(&({lhs}), &({rhs}))', 'R7')
+                        else:
+                            add_edit(b['span'][0], b['span'][1], f'{func}({lhs}, {rhs})', 'R7')
                         n += 1
                 if n == 0:
                     raise GenError(f'lost-anchor: R7 operator site "{rw[1]}" not found in {u.fnpath}')
@@ -344,6 +349,22 @@ class Generator:
                 add_edit(c['body'][0], c['body'][0], f'-> (cr: {rty}) ensures {ens} {{ ', 'RC')
                 add_edit(c['body'][1], c['body'][1], ' }', 'RC')
                 applied.append(f'RC closure#{k} annotated: -> (cr: {rty}) ensures {ens}')
+            elif kind == 'RCT':
+                # closure contract selected by CONTENT: every closure of the fragment whose body contains the needle (token-normalised)
+                # and that no earlier RCT rule has taken gets `-> (cr: T) ensures E`; robust against closures being added/merged/reordered
+                needle, rty, ens = normtok(rw[1]), rw[2], rw[3]
+                n = 0
+                for c in fn['closures']:
+                    if not inside(c['span'], span) or tuple(c['span']) in rct_taken:
+                        continue
+                    if needle in normtok(src[c['body'][0]:c['body'][1]].decode()):
+                        rct_taken.add(tuple(c['span']))
+                        add_edit(c['body'][0], c['body'][0], f'-> (cr: {rty}) ensures {ens} {{ ', 'RC')
+                        add_edit(c['body'][1], c['body'][1], ' }', 'RC')
+                        n += 1
+                if n == 0:
+                    raise GenError(f'lost-anchor: no closure containing "{rw[1]}" in {u.fnpath}')
+                applied.append(f'RCT closures containing "{rw[1]}" x{n} annotated: -> (cr: {rty}) ensures {ens}')
             elif kind == 'RT':
                 old, new = rw[1], rw[2]
                 body = src[span[0]:span[1]].decode()
@@ -369,6 +390,14 @@ class Generator:
                 raise GenError(f'lost-anchor: loop #{k} in fragment of {u.fnpath} (has {len(frag_loops)})')
             l = frag_loops[k]
             add_edit(l['body'][0], l['body'][0], ('SPLICE', text), 'loop')
+        for k, text in u.loopstarts.items():
+            # proof text spliced as the first thing inside loop #k's body (anchored to the loop, not to a statement in it)
+            if k >= len(frag_loops):
+                raise GenError(f'lost-anchor: loop #{k} in fragment of {u.fnpath} (has {len(frag_loops)})')
+            l = frag_loops[k]
+            if src[l['body'][0]:l['body'][0] + 1] != b'{':
+                raise GenError(f'unsupported: loop #{k} body of {u.fnpath} is not a block')
+            add_edit(l['body'][0] + 1, l['body'][0] + 1, ('SPLICE', [(tl, '\n' + line) if i == 0 else (tl, line) for i, (tl, line) in enumerate(text)]), 'loopstart')
         for (prefix, k, text) in u.ats:
             pre = normtok(prefix)
             c = [s for s in fn['stmts'] if inside(s['span'], span) and normtok(src[s['span'][0]:s['span'][1]].decode()).startswith(pre)]
@@ -383,7 +412,7 @@ class Generator:
             if b[0] < a[1]:
                 raise GenError(f'unsupported: overlapping rewrites in {u.fnpath}: {a[3]} / {b[3]}')
 
-        arm_tail = (u.kind == 'arm' and u.tail and not wrap)
+        arm_tail = (u.kind in ('arm', 'loopbody') and u.tail and not wrap)
         if arm_tail:
             self.emit('{\n', ('gen', 'wrap'))
         if wrap:
@@ -530,6 +559,10 @@ class Generator:
                     k = int(args[1])
                     cur.loops[k] = []
                     pending = cur.loops[k]
+                elif d == 'loopstart':
+                    k = int(args[1])
+                    cur.loopstarts[k] = []
+                    pending = cur.loopstarts[k]
                 elif d == 'at':
                     k = int(args[2][1:]) if len(args) > 2 else 0
                     lst = []
